@@ -36,6 +36,7 @@ def gen_table(rng):
     Ku = u.km / u.s if rng.random() < 0.6 else u.m / u.s
     P = 10 ** rng.uniform(-1, 3.5, n) * (1 + np.arange(n) * 1e-6)
     s["P"] = (P * u.day).to(Pu)
+    mixed = False
     s["e"] = rng.uniform(0, 0.9, n)
     full = (2 * np.pi * u.rad).to_value(au)
     wide = rng.random() < 0.4
@@ -68,7 +69,7 @@ def gen_table(rng):
         final[k] = s[k]
     s = final
     cls = ("n1" if n == 1 else "n2-7" if n <= 7 else "n>7", str(Pu), str(au), str(Ku), poly, noff, has_tref, lp,
-           ksign, wide, shuffled)
+           ksign, wide, shuffled, mixed)
     return s, cls, dict(n=n, P_unit=str(Pu), angle_unit=str(au), K_unit=str(Ku), poly_trend=poly, n_offsets=noff,
                         t_ref=has_tref, logprobs=lp, K_sign=ksign, wide_angles=bool(wide))
 
@@ -118,7 +119,15 @@ def run(ctx):
                 part[::-1]
                 part[-1]
             ops.append("getitem")
-            s.copy(); ops.append("copy")
+            cp = s.copy(); ops.append("copy")
+            # a copy is independent: changing it (wrap_K in place) leaves the original's columns bit-identical
+            before_cols = {k_: np.array(getattr(s.tbl[k_], "value", s.tbl[k_]), copy=True).tobytes() for k_ in s.tbl.colnames}
+            cp.wrap_K()
+            extra += 1
+            changed_cols = [k_ for k_ in s.tbl.colnames
+                            if np.array(getattr(s.tbl[k_], "value", s.tbl[k_]), copy=True).tobytes() != before_cols[k_]]
+            if changed_cols:
+                ctx.violation("copy-aliases-original", "wrap_K() on a copy() changed the original's columns %s" % changed_cols, desc)
             s.mean(); ops.append("mean")
             s.std(); ops.append("std")
             s.median_period(); ops.append("median_period")
@@ -156,6 +165,24 @@ def run(ctx):
                 if bad:
                     ctx.violation("pack-unpack", "unpack(pack(x)) != x: " + bad, dict(desc, nonlinear_only=nonlinear_only))
             ops.append("pack-unpack")
+            # a table whose first column is single precision while the others are double (periods read from a catalogue):
+            # packing must not squeeze the double-precision columns through the first column's type
+            if rng.random() < 0.2:
+                s32 = s.copy()
+                s32["P"] = s32["P"].astype(np.float32)
+                arr, units = s32.pack(nonlinear_only=False)
+                back = JokerSamples.unpack(arr, units, t_ref=s32.t_ref, poly_trend=s32.poly_trend, n_offsets=s32.n_offsets)
+                extra += 1
+                ops.append("pack-unpack-mixed-precision")
+                for k in units:
+                    if k == "P":
+                        continue
+                    orig = s.tbl[k]
+                    ov = orig.to_value(units[k]) if hasattr(orig, "to_value") else np.asarray(orig)
+                    if not np.allclose(np.asarray(back.tbl[k].value if hasattr(back.tbl[k], "value") else back.tbl[k]), ov, rtol=1e-14, atol=0):
+                        ctx.violation("pack-unpack", "unpack(pack(x)) != x: double-precision column %s lost precision because the "
+                                      "first column is single precision" % k, dict(desc, column=k))
+                        break
             # phase times
             phase = rng.uniform(-7, 7) * u.rad if rng.random() < 0.7 else rng.uniform(-400, 400) * u.deg
             if s.t_ref is not None:
